@@ -420,6 +420,17 @@ def ordering(ck, S, victim_is_first, R4="C06-O4", R5="C06-O5"):
     fr = S.m["findRotatedFiles"]
     g = S.g(fr)
     sorts = [n for n in fr.calls() if name_is(strip_tmpl(n.get("callee") or ""), ("std::sort", "std::stable_sort"))]
+    if len(sorts) > 1:
+        # several passes, "minor key first, major key last": only right when every pass after the first keeps the order of the elements it
+        # considers equal, i.e. is a stable sort. std::sort is not (libstdc++: introsort above 16 elements, insertion sort below - so small tests pass)
+        order = sorted(sorts, key=lambda n_: (n_.get("l", 0), n_.get("c", 0)))
+        later_unstable = [n_ for n_ in order[1:] if name_is(strip_tmpl(n_.get("callee") or ""), "std::sort")]
+        if later_unstable and all(g.can_reach(g.site_of(order[0]), g.site_of(n_)) for n_ in later_unstable if g.site_of(order[0]) is not None and g.site_of(n_) is not None):
+            ck.ob(R4, sitestr(fr, later_unstable[0]), False, "findRotatedFiles orders the files in %d passes and a later pass is std::sort, which is not stable: among files that are equal under the later key (the same day) the order "
+                  "established by the earlier pass (the index) is lost once there are more than 16 of them - retention then removes a newer file and keeps an older one" % len(sorts), key="findRotatedFiles|unstable-multipass")
+        else:
+            ck.ob(R4, sitestr(fr), None, "findRotatedFiles sorts %d times" % len(sorts), key="findRotatedFiles|no-sort")
+        return
     if len(sorts) != 1:
         ck.ob(R4, sitestr(fr), False if not sorts else None, "findRotatedFiles sorts %d times" % len(sorts), key="findRotatedFiles|no-sort")
         return
